@@ -39,6 +39,7 @@ func c15(c *Ctx) {
 	c15remove(c)
 	c15get(c)
 	c15users(c)
+	c15pureHash(c)
 }
 
 // hashDerivation renders the argument of a hashFunc call: want []byte(nodeRepr + strconv.Itoa(i)).
